@@ -1,7 +1,7 @@
 """Shared discovery helpers for the AEAD rules (C02, C03, C17) and others."""
 import re
 
-from ..core import strip_reborrow, operand_locals, def_sites, single_def, AnchorError
+from ..core import full_range_index, strip_reborrow, operand_locals, def_sites, single_def, AnchorError
 from ..engines import (auth_fixpoint, auth_check, CT_T, CT_F, OK, ERR, returns_result,
                        views_of)
 from ..expr import expr_of_operand, atoms_of
@@ -132,7 +132,7 @@ def view_info(fn, local, depth=10):
             if c.args and c.args[0].get("k") in ("copy", "move"):
                 local_view = fn.prog is not None and c.rkey in fn.prog.reslicers
                 if c.path in RESLICE or c.rpath in RESLICE or c.path in OPTION_ADAPTERS or local_view:
-                    if c.path in NARROWING or (local_view and c.rkey in fn.prog.narrowing_reslicers):
+                    if (c.path in NARROWING and not full_range_index(c)) or (local_view and c.rkey in fn.prog.narrowing_reslicers):
                         narrowed = True
                     cur = c.args[0]["l"]
                     continue
@@ -449,7 +449,7 @@ def view_span(fn, local, depth=14):
             if c.path in RESLICE or c.rpath in RESLICE or c.path in OPTION_ADAPTERS or local_view:
                 if c.path in SPLIT_CALLS:
                     break       # reached through a tuple field below
-                if c.path in NARROWING or (local_view and c.rkey in fn.prog.narrowing_reslicers):
+                if (c.path in NARROWING and not full_range_index(c)) or (local_view and c.rkey in fn.prog.narrowing_reslicers):
                     start = None
                 cur = c.args[0]["l"]
                 continue
